@@ -739,6 +739,13 @@ class Context(object):
         """
         for value in list(context.values()):
             if ismacro(value):
+                # Parameters and registers keep their value on the class:
+                # give each document its own class so that an assignment
+                # does not change the value every other document starts with
+                if isinstance(value, type) and \
+                   issubclass(value, plasTeX.ParameterCommand):
+                    value = type(value.__name__, (value,),
+                                 {'__module__': value.__module__})
                 self[macroName(value)] = value
 #           elif isinstance(value, Context):
 #               self.importMacros(value)
